@@ -14,7 +14,7 @@ func init() {
 	register(&Rule{
 		ID:    "C10",
 		Title: "State snapshots and checkpoints are complete",
-		Pkgs:  []string{"data/trie", "data/state"},
+		Pkgs:  []string{"data/trie", "data/trie/hashesHolder", "data/state"},
 		Explain: "Decides structural conditions of completeness. (S1 pairing) TakeSnapshot/SetCheckpoint enter pruning-buffering mode before enqueueing; takeSnapshot leaves it exactly once on every path (deferred); " +
 			"SnapshotState/setStateCheckpoint enter once and their goroutine exits once. (S2 traversal) commitSnapshot/commitCheckpoint of branch nodes visit every child slot (resolve-if-collapsed then recurse, errors checked, " +
 			"no exit other than exhaustion, error, or ShouldCommit==false), extension nodes resolve and recurse, and every node type writes itself to the target DB (error checked) before reporting success; leaves are " +
@@ -26,6 +26,7 @@ func init() {
 }
 
 func runC10(c *core.Ctx) {
+	c10DropOnlyUpToAFoundRoot(c)
 	const tp = "data/trie"
 	const sp = "data/state"
 	isEnter := func(in ssa.Instruction) bool {
@@ -402,4 +403,143 @@ func c10Branch(c *core.Ctx, fn *ssa.Function, m string, notNeeded pruneFn) {
 	} else if m == "commitCheckpoint" {
 		c.Pass("C10/marker-dropped-after-children", name, callIn.Pos(), "the checkpoint marker is removed only after every child was traversed")
 	}
+}
+
+// c10DropOnlyUpToAFoundRoot: the holder of not-yet-checkpointed hashes forgets entries only up to a
+// root it actually holds: every truncation of hashes / rootHashes in RemoveCommitted sits behind the
+// test that the entry reached IS the given root. Snapshots call RemoveCommitted with roots the
+// holder never saw (account data tries, repeated snapshots); dropping entries for those makes the
+// next checkpoint skip nodes that were never written to the snapshot storage.
+func c10DropOnlyUpToAFoundRoot(c *core.Ctx) {
+	fn := anchorM(c, "data/trie/hashesHolder", "checkpointHashesHolder", "RemoveCommitted")
+	if fn == nil || len(fn.Params) < 2 {
+		return
+	}
+	isFound := func(cd core.Cond) bool {
+		call, isCall := cd.V.(*ssa.Call)
+		if !isCall || !cd.Taken || !core.CallDesc(&call.Call).Is("bytes", "", "Equal") {
+			return false
+		}
+		return call.Call.Args[0] == ssa.Value(fn.Params[1]) || call.Call.Args[1] == ssa.Value(fn.Params[1])
+	}
+	n := 0
+	core.Instrs(fn, func(in ssa.Instruction) {
+		st, ok := in.(*ssa.Store)
+		if !ok {
+			return
+		}
+		fa, ok := st.Addr.(*ssa.FieldAddr)
+		if !ok || (core.FieldOfAddr(fa).Name() != "hashes" && core.FieldOfAddr(fa).Name() != "rootHashes") {
+			return
+		}
+		n++
+		found := false
+		for _, cd := range core.CondsAt(st.Block()) {
+			if isFound(cd) || foundThroughFlag(cd, isFound) {
+				found = true
+			}
+		}
+		c.Check(found, "C10/drop-only-up-to-a-found-root", fmt.Sprintf("checkpointHashesHolder.RemoveCommitted/%s#%d", core.FieldOfAddr(fa).Name(), n), st.Pos(),
+			"the entries are dropped only where bytes.Equal(entry root, given root) is known",
+			"entries of the holder are dropped on a path where the given root was not found among them: a snapshot of a root the holder never saw (an account's data trie, a repeated snapshot) wipes the hashes of later commits, and the next checkpoint skips nodes that are in no snapshot storage")
+	})
+	c.Floor("C10/drop-only-up-to-a-found-root", 2)
+}
+
+
+// foundThroughFlag recognises the flag idiom: the condition tests a variable (a phi) that merges
+// constants; every incoming edge whose constant satisfies the test - or whose value is not a
+// constant - is an edge on which `want` is known. E.g. `idx := -1; for ... { if eq { idx = i; break } };
+// if idx < 0 { return }` establishes eq for what follows, as does a boolean `found`.
+func foundThroughFlag(cd core.Cond, want func(core.Cond) bool) bool {
+	var ph *ssa.Phi
+	var op token.Token
+	var k int64
+	switch x := cd.V.(type) {
+	case *ssa.Phi:
+		ph, op, k = x, token.EQL, 1 // boolean flag: true
+	case *ssa.BinOp:
+		p, isP := x.X.(*ssa.Phi)
+		kc, isK := core.ConstInt(x.Y)
+		if !isP || !isK {
+			return false
+		}
+		ph, op, k = p, x.Op, kc
+	default:
+		return false
+	}
+	holds := func(v int64) bool { // does constant v satisfy the condition as known (taken or not)?
+		r := false
+		switch op {
+		case token.EQL:
+			r = v == k
+		case token.NEQ:
+			r = v != k
+		case token.LSS:
+			r = v < k
+		case token.LEQ:
+			r = v <= k
+		case token.GTR:
+			r = v > k
+		case token.GEQ:
+			r = v >= k
+		default:
+			return true
+		}
+		return r == cd.Taken
+	}
+	// consts: the constants an edge value can be (nil when it may be something else)
+	var consts func(v ssa.Value, seen map[ssa.Value]bool) ([]int64, bool)
+	consts = func(v ssa.Value, seen map[ssa.Value]bool) ([]int64, bool) {
+		if b, ok := core.ConstBool(v); ok {
+			if b {
+				return []int64{1}, true
+			}
+			return []int64{0}, true
+		}
+		if n, ok := core.ConstInt(v); ok {
+			return []int64{n}, true
+		}
+		p, ok := v.(*ssa.Phi)
+		if !ok {
+			return nil, false
+		}
+		if seen[p] {
+			return nil, true
+		}
+		seen[p] = true
+		var out []int64
+		for _, e := range p.Edges {
+			cs, ok := consts(e, seen)
+			if !ok {
+				return nil, false
+			}
+			out = append(out, cs...)
+		}
+		return out, true
+	}
+	any := false
+	for i, e := range ph.Edges {
+		cs, allConst := consts(e, map[ssa.Value]bool{ph: true})
+		live := !allConst
+		for _, v := range cs {
+			if holds(v) {
+				live = true
+			}
+		}
+		if !live {
+			continue // this edge cannot reach the store
+		}
+		any = true
+		okEdge := false
+		for _, c2 := range core.CondsOnEdgeTo(ph.Block().Preds[i], ph.Block()) {
+			if want(c2) {
+				okEdge = true
+			}
+		}
+		if !okEdge {
+			return false
+		}
+	}
+	return any
 }
